@@ -1,6 +1,6 @@
 /-!
 Model of the slice / index arithmetic of DQE evaluation (`src/debugger/variable/value/mod.rs`:
-`ArrayValue::slice`, `Value::index`, `PointerValue::slice`, and `read_memory_by_pid`'s allocation in
+`ArrayValue::slice`, `Value::index`, `PointerValue::slice`, and `read_memory_by_pid`'s buffer reservation in
 `src/debugger/mod.rs`) and of the buffer reads of the value decoders (`scalar_from_bytes` in
 `value/parser.rs`, `StructureMember::value` in `debugee/dwarf/type.rs`), with Rust's fault outcomes explicit.
 
@@ -9,15 +9,17 @@ Core Lean only (linked into `bsmodel`).
 -/
 namespace BsVerif.SliceBuf
 
+/-- what an out-of-range request ran into BEFORE the repairs (BugStalker ccf13b4, d97590b, 939acb3); in the code as it
+is each of these tests exists explicitly and yields "no result" -/
 inductive Fault
-  | sub         -- `right - left`: "attempt to subtract with overflow"            (value/mod.rs:224, :312)
-  | drainLeft   -- `items.drain(..left)`, left > len: "range end index .. out of range"   (:220)
-  | drainRight  -- `items.drain(start..)`, start > len (unreachable while the guard at :225 is there)
-  | mul         -- `deref_size * left`, `deref_size * (right - left)`                     (:308, :312)
-  | add         -- `ptr as usize + deref_size * left`                                     (:308)
-  | cap         -- `Vec::with_capacity(read_n)`, read_n > isize::MAX: "capacity overflow"  (debugger/mod.rs:1316)
-  | chunk0      -- `raw_data.chunks(0)`: "chunk size must be non-zero"                    (:318)
-  | allocAbort  -- the allocation fails: `handle_alloc_error` aborts the process
+  | sub         -- `right < left`: `right.checked_sub(left)?` / the guard of `ArrayValue::slice`   (was: `right - left` overflow)
+  | drainLeft   -- `left > items.len()`: the guard of `ArrayValue::slice`          (was: `items.drain(..left)` out of range)
+  | drainRight  -- `items.drain(start..)`, start > len (unreachable while the guard `remove_range.start < items.len()` is there)
+  | mul         -- `deref_size.checked_mul(left)?`, `deref_size.checked_mul(len)?`  (was: unchecked `*`)
+  | add         -- `(ptr as usize).checked_add(..)?`                                (was: unchecked `+`)
+  | cap         -- `try_reserve_exact(read_n)`, read_n > isize::MAX: `CapacityOverflow` -> ENOMEM  (was: `Vec::with_capacity` "capacity overflow")
+  | chunk0      -- `deref_size == 0`: nothing to split into items                   (was: `raw_data.chunks(0)` panic)
+  | allocAbort  -- the allocation fails: `try_reserve_exact` -> ENOMEM              (was: `handle_alloc_error` aborts the process)
   deriving Repr, DecidableEq
 
 def Fault.name : Fault → String
@@ -34,26 +36,33 @@ def Out.isPanic {α} : Out α → Bool
   | .panic _ => true
   | _ => false
 
-/-- `checked = true`: the repaired behaviour (bounds validated first; out-of-range bounds are an error). -/
+/-- `checked = true` (the code as it is): bounds are validated, arithmetic is checked, the read buffer is reserved
+fallibly; an out-of-range request is "no result" (`None` / `Err`).  `checked = false`: the code as it was found, each
+fault a panic / abort; kept only so that the regression stays expressible. -/
 structure Quirks where
-  checked : Bool := false
+  checked : Bool := true
   deriving Repr, DecidableEq
 
-def asFound : Quirks := {}
+/-- the code as it is -/
+def current : Quirks := {}
 def repaired : Quirks := { checked := true }
+/-- the code before the repair -/
+def asFound : Quirks := { checked := false }
 
 def fault {α} (q : Quirks) (f : Fault) : Out α := if q.checked then .err else .panic f
 
-/-- `ArrayValue::slice(left, right)` on the item vector. -/
+/-- `ArrayValue::slice(left, right)` on the item vector: `None` when `left > len` or `right < left`
+(one guard in the code; which of the two is tested first is immaterial), else `drain(..left)` and, when
+`right - left < remaining`, `drain(right - left..)`. -/
 def arraySlice {α} (q : Quirks) (items : List α) (left right : Option Nat) : Out (List α) :=
   let l := left.getD 0
-  if l > items.length then fault q .drainLeft            -- `items.drain(..left)`
+  if l > items.length then fault q .drainLeft
   else
     let rest := items.drop l
     match right with
     | none => .ok rest
     | some r =>
-      if r < l then fault q .sub                          -- `right - left.unwrap_or_default()`
+      if r < l then fault q .sub
       else if r - l < rest.length then .ok (rest.take (r - l))   -- guard `remove_range.start < items.len()`, `drain(start..)`
       else .ok rest
 
@@ -69,19 +78,22 @@ structure PtrRead where
   items : Nat
   deriving Repr, DecidableEq
 
-/-- `PointerValue::slice(left, right)` for a pointer `ptr` to elements of `es` bytes, up to the memory read.
+/-- `PointerValue::slice(left, right)` for a pointer `ptr` to elements of `es` bytes, up to the memory read, in the
+order of the code: `deref_size == 0`, `right.checked_sub(left)`, `deref_size.checked_mul(left)`,
+`ptr.checked_add(..)`, `deref_size.checked_mul(len)`, then `read_memory_by_pid`'s `try_reserve_exact(cnt)`
+(`CapacityOverflow` above `isize::MAX`, `AllocError` when the allocator refuses).
 `allocMax`: the largest byte count the allocator can satisfy (environment; certainly < 2^47 on x86-64 Linux). -/
 def ptrSlice (q : Quirks) (allocMax ptr es : Nat) (left : Option Nat) (right : Nat) : Out PtrRead :=
   let l := left.getD 0
-  if es * l ≥ 2 ^ 64 then fault q .mul
-  else if ptr + es * l ≥ 2 ^ 64 then fault q .add
+  if es = 0 then fault q .chunk0
   else if right < l then fault q .sub
+  else if es * l ≥ 2 ^ 64 then fault q .mul
+  else if ptr + es * l ≥ 2 ^ 64 then fault q .add
   else if es * (right - l) ≥ 2 ^ 64 then fault q .mul
   else
     let cnt := es * (right - l)
-    if cnt ≥ 2 ^ 63 then fault q .cap                     -- `Vec::with_capacity`: capacity overflow
+    if cnt ≥ 2 ^ 63 then fault q .cap
     else if cnt > allocMax then fault q .allocAbort
-    else if es = 0 then fault q .chunk0                   -- `raw_data.chunks(deref_size)`
     else .ok { base := ptr + es * l, cnt := cnt, items := right - l }
 
 /-! ## decoder reads -/
